@@ -868,5 +868,5 @@ func TestProp(t *testing.T) {
 			pool.Close()
 		}
 	}()
-	h.Main(t, "C11", h.Rapid("mutated_encodings", h.Opt{Quick: 20000, Thorough: 2000000}, draw, run))
+	h.Main(t, "C11", h.Rapid("mutated_encodings", h.Opt{Quick: 20000, Thorough: 300000}, draw, run))
 }
